@@ -25,4 +25,10 @@ structure ChainEntry where
   appendsSignal : Bool          -- message += StringFrom(WTERMSIG(status))
 deriving Repr, DecidableEq, Inhabited
 
+/-- where `TestRegistry::runAllTests` calls `test->setRunInSeperateProcess()` -/
+inductive SepFlagPlacement
+  | everyTest                   -- first statement of the loop body: for every test
+  | groupStartOnly              -- inside `if (groupStart) { … }`: only for the first test of a group
+deriving Repr, DecidableEq, Inhabited
+
 end SepProc
